@@ -6,7 +6,9 @@
 //! kept part of the name; a changed address, a changed owner and an RRSIG of another RRset must not verify;
 //! `sign_sorted_rrset_in` is called with one scratch buffer for a sequence of RRsets, with a buffer that is not empty
 //! on entry, and again after an attempt in which the key back end (SignRaw::sign_raw) reported an error: every RRSIG
-//! that is returned has to verify.
+//! that is returned has to verify. DS digests (DnskeyExt::digest, RFC 4034 5.1.4) of the generated keys under owners in
+//! mixed case equal an independent computation with ring: SHA-1, SHA-256 and SHA-384 over the lower-cased wire name
+//! followed by the DNSKEY RDATA.
 use std::str::FromStr;
 
 use domain::base::iana::Class;
@@ -17,7 +19,9 @@ use domain::crypto::sign::{generate, GenerateParams, KeyPair, SignError, SignRaw
 use domain::dnssec::sign::keys::SigningKey;
 use domain::dnssec::sign::records::Rrset;
 use domain::dnssec::sign::signatures::rrsigs::{sign_rrset, sign_sorted_rrset_in};
-use domain::dnssec::validator::base::RrsigExt;
+use domain::base::iana::DigestAlgorithm;
+use domain::base::rdata::ComposeRecordData;
+use domain::dnssec::validator::base::{DnskeyExt, RrsigExt};
 use domain::rdata::dnssec::Timestamp;
 use domain::rdata::{Dnskey, Mx, A};
 
@@ -165,6 +169,39 @@ fn main() {
                     "{:?}: call {} of sign_sorted_rrset_in with one reused scratch buffer ({}; the buffer held other octets before the first call, the call for d.example. failed in the key back end): the RRSIG does not verify",
                     params, i + 1, owner
                 ));
+            }
+        }
+    }
+    // DS digests against an independent computation
+    for params in [GenerateParams::Ed25519, GenerateParams::EcdsaP256Sha256] {
+        for flags in [256u16, 257] {
+            let (_sec, public) = generate(&params, flags).unwrap();
+            let mut rdata: Vec<u8> = Vec::new();
+            public.compose_rdata(&mut rdata).unwrap();
+            for owner in ["example.", "Sub.Example.", "a.B.c.EXAMPLE."] {
+                let mut data: Vec<u8> = Vec::new();
+                for label in owner.trim_end_matches('.').split('.') {
+                    data.push(label.len() as u8);
+                    data.extend(label.bytes().map(|c| c.to_ascii_lowercase()));
+                }
+                data.push(0);
+                data.extend_from_slice(&rdata);
+                for (alg, ring_alg) in [
+                    (DigestAlgorithm::SHA1, &ring::digest::SHA1_FOR_LEGACY_USE_ONLY),
+                    (DigestAlgorithm::SHA256, &ring::digest::SHA256),
+                    (DigestAlgorithm::SHA384, &ring::digest::SHA384),
+                ] {
+                    let own = ring::digest::digest(ring_alg, &data);
+                    match public.digest(&n(owner), alg) {
+                        Ok(d) => {
+                            if d.as_ref() != own.as_ref() {
+                                fail(format!("{:?} key with flags {} at {}: the {} DS digest is {:02x?} (independent computation: {:02x?})",
+                                    params, flags, owner, alg, d.as_ref(), own.as_ref()));
+                            }
+                        }
+                        Err(e) => fail(format!("{:?} key at {}: no {} DS digest: {}", params, owner, alg, e)),
+                    }
+                }
             }
         }
     }
